@@ -1326,3 +1326,32 @@ pub mod prefilter {
         pub fn good_gate(&mut self) -> Option<u32> { if self.starts_thing_good() { self.parse_thing() } else { None } }
     }
 }
+
+/// C20 N1 / C01 R22 controls: creators of nested compilers
+pub mod nestedcomp {
+    #[derive(Clone, Default)]
+    pub struct Compiler { pub source_file: Option<String>, pub class_context_stack: Vec<u32>, pub depth: u32 }
+    impl Compiler {
+        pub fn new() -> Self { Compiler::default() }
+        /// GOOD: copies both
+        pub fn good_body(&self) -> Compiler {
+            let mut c = Compiler::new();
+            c.source_file = self.source_file.clone();
+            c.class_context_stack = self.class_context_stack.clone();
+            c
+        }
+        /// BAD: forgets the file
+        pub fn bad_ctor(&self) -> u32 {
+            let mut c = Compiler::new();
+            c.class_context_stack = self.class_context_stack.clone();
+            c.depth
+        }
+        /// BAD: copies nothing
+        pub fn bad_arrow(&self) -> u32 {
+            let c = Compiler::new();
+            c.depth
+        }
+        /// GOOD: through the good creator
+        pub fn good_via(&self) -> u32 { self.good_body().depth }
+    }
+}
